@@ -137,38 +137,73 @@ type loaded struct {
 	pkgs map[string]*ssa.Package
 }
 
+// droppedHarnessFiles: harness files left out of the overlay because they do
+// not compile against the current tree (file -> first error).
+var droppedHarnessFiles = map[string]string{}
+
 func loadProgram(pkgPaths map[string]bool) (*loaded, error) {
 	ov, err := overlayFor(pkgPaths, false)
 	if err != nil {
 		return nil, err
-	}
-	cfg := &packages.Config{
-		Mode:    packages.LoadAllSyntax,
-		Dir:     repoDir,
-		Overlay: ov,
-		Env:     append(os.Environ(), "GOFLAGS=-mod=mod", "GOPROXY=off", "GOSUMDB=off", "GOTOOLCHAIN=local", "CGO_ENABLED=0"),
-		Tests:   false,
 	}
 	var patterns []string
 	for p := range pkgPaths {
 		patterns = append(patterns, p)
 	}
 	sort.Strings(patterns)
-	initial, err := packages.Load(cfg, patterns...)
-	if err != nil {
-		return nil, err
-	}
-	nerr := 0
-	packages.Visit(initial, nil, func(p *packages.Package) {
-		for _, e := range p.Errors {
-			if nerr < 20 {
-				fmt.Fprintln(os.Stderr, "load error:", e)
-			}
-			nerr++
+	var initial []*packages.Package
+	for attempt := 0; ; attempt++ {
+		cfg := &packages.Config{
+			Mode:    packages.LoadAllSyntax,
+			Dir:     repoDir,
+			Overlay: ov,
+			Env:     append(os.Environ(), "GOFLAGS=-mod=mod", "GOPROXY=off", "GOSUMDB=off", "GOTOOLCHAIN=local", "CGO_ENABLED=0"),
+			Tests:   false,
 		}
-	})
-	if nerr > 0 {
-		return nil, fmt.Errorf("%d package load errors (does /repo build?)", nerr)
+		initial, err = packages.Load(cfg, patterns...)
+		if err != nil {
+			return nil, err
+		}
+		var errs []packages.Error
+		packages.Visit(initial, nil, func(p *packages.Package) {
+			errs = append(errs, p.Errors...)
+		})
+		if len(errs) == 0 {
+			break
+		}
+		// A harness file that does not compile against this tree (it drives an
+		// unexported function that a change renamed or re-shaped) must not take
+		// the other harnesses of its package down: leave it out and load again;
+		// its harnesses are reported inconclusive. Only files that hold nothing
+		// but harness entry functions can be left out (stubs and shared helpers
+		// live in zz_support*/zz_stubs* files, which every harness may need):
+		// errors there, or outside harness files, are fatal.
+		dropped := 0
+		if attempt < 4 {
+			for _, e := range errs {
+				file := e.Pos
+				if i := strings.Index(file, ":"); i >= 0 {
+					file = file[:i]
+				}
+				base := filepath.Base(file)
+				if _, inOverlay := ov[file]; inOverlay && strings.HasPrefix(base, "zz_") && !strings.HasPrefix(base, "zz_support") && !strings.HasPrefix(base, "zz_api") && !strings.HasPrefix(base, "zz_stubs") {
+					if _, done := droppedHarnessFiles[file]; !done {
+						droppedHarnessFiles[file] = e.Msg
+						fmt.Fprintf(os.Stderr, "load: harness file %s does not compile against this tree (%s): left out\n", base, e.Msg)
+					}
+					delete(ov, file)
+					dropped++
+				}
+			}
+		}
+		if dropped == 0 {
+			for i, e := range errs {
+				if i < 20 {
+					fmt.Fprintln(os.Stderr, "load error:", e)
+				}
+			}
+			return nil, fmt.Errorf("%d package load errors (does /repo build?)", len(errs))
+		}
 	}
 	prog, _ := ssautil.AllPackages(initial, ssa.InstantiateGenerics)
 	prog.Build()
